@@ -925,6 +925,9 @@ func (st *runState) checkSampleBlock(blk *chfake.Block, add func(p, oracle, sig,
 			if !st.hostile {
 				add("C02", "row-not-submitted", "a block contains a row no request submitted",
 					fmt.Sprintf("INSERT #%d row %d: ts=%d type=%d value=%v line=%.60q matches no submitted entry", blk.Seq, i, ts.Vals[i], tp.Vals[i], v, line))
+				// C03: exactly one sample per submitted entry - a sample that stands for no entry is one too many
+				add("C03", "row-without-entry", "a stored sample belongs to no submitted entry",
+					fmt.Sprintf("INSERT #%d row %d: ts=%d type=%d value=%v line=%.60q matches no submitted entry", blk.Seq, i, ts.Vals[i], tp.Vals[i], v, line))
 			}
 			continue
 		}
